@@ -234,6 +234,135 @@ struct SeqDriver {
 };
 
 /******************************************************************************/
+// handles that live inside managed objects: singly linked lists of nodes
+
+struct Node : public tlx::ReferenceCounter {
+    int id;
+    int* heap;
+    tlx::CountingPtr<Node> next;
+    static int& next_id() { static int n = 1; return n; }
+    Node() : id(next_id()++), heap(new int(id)) { Registry::get().ctor(this); }
+    Node(const Node&) = delete;
+    ~Node() { Registry::get().dtor(this); delete heap; heap = nullptr; }
+};
+
+struct ListDriver {
+    typedef tlx::CountingPtr<Node> P;
+    static const int NH = 4;
+    Rng& rng;
+    P h[NH];
+    int mh[NH] = { 0, 0, 0, 0 };        // model: id each handle points at (0 = null)
+    std::map<int, int> mnext;          // model: id -> id of next (0 = null), for every live node
+    std::vector<std::string> trace;
+    explicit ListDriver(Rng& r) : rng(r) {}
+
+    void bad(const std::string& what, const std::string& detail) {
+        std::string tr; size_t from = trace.size() > 40 ? trace.size() - 40 : 0;
+        for (size_t i = from; i < trace.size(); ++i) tr += trace[i] + "; ";
+        verif::fail("C12:list:" + what, "CountingPtr<Node> list " + what + ": " + detail + " | ops: " + tr);
+        throw Stop();
+    }
+    bool reaches(int from, int target) const {
+        for (int x = from; x; x = mnext.at(x)) if (x == target) return true;
+        return false;
+    }
+    void check(const char* after) {
+        // model: reachable set and reference counts
+        std::map<int, size_t> cnt;
+        std::set<int> reach;
+        for (int i = 0; i < NH; ++i) if (mh[i]) ++cnt[mh[i]];
+        std::vector<int> work;
+        for (int i = 0; i < NH; ++i) if (mh[i] && reach.insert(mh[i]).second) work.push_back(mh[i]);
+        while (!work.empty()) {
+            int x = work.back(); work.pop_back();
+            int n = mnext.at(x);
+            if (n) { ++cnt[n]; if (reach.insert(n).second) work.push_back(n); }
+        }
+        // nodes no longer reachable are expected to be gone
+        for (auto it = mnext.begin(); it != mnext.end();) { if (!reach.count(it->first)) it = mnext.erase(it); else ++it; }
+        if (Registry::get().count() != reach.size())
+            bad("live-objects", std::string(after) + ": " + std::to_string(Registry::get().count()) + " nodes alive, " + std::to_string(reach.size()) + " reachable from the handles");
+        // walk the real lists
+        for (int i = 0; i < NH; ++i) {
+            const Node* p = h[i].get();
+            int x = mh[i];
+            size_t steps = 0;
+            while (p || x) {
+                if (!p || !x) bad("handle-target", std::string(after) + ": chain of h" + std::to_string(i) + " ends " + (p ? "later" : "earlier") + " than the model's");
+                if (!Registry::get().alive(p)) bad("destroyed-while-referenced", std::string(after) + ": a node reachable from h" + std::to_string(i) + " has been destroyed");
+                if (p->id != x) bad("handle-target", std::string(after) + ": chain of h" + std::to_string(i) + " holds node " + std::to_string(p->id) + ", model " + std::to_string(x));
+                if (p->reference_count() != cnt[x]) bad("reference-count", std::string(after) + ": node " + std::to_string(x) + " has reference_count() " + std::to_string(p->reference_count()) + ", " + std::to_string(cnt[x]) + " handle(s) point at it");
+                if (*p->heap != p->id) bad("object-corrupted", after);
+                p = p->next.get(); x = mnext.at(x);
+                if (++steps > 10000) bad("cycle", after);
+            }
+        }
+        if (Registry::get().errors) throw Stop();
+    }
+    void op() {
+        ++g_ops;
+        int i = (int)rng.below(NH), j = (int)rng.below(NH);
+        std::string hi = "h" + std::to_string(i), hj = "h" + std::to_string(j);
+        switch (rng.below(12)) {
+        case 0: { h[i] = tlx::make_counting<Node>(); mh[i] = h[i]->id; mnext[mh[i]] = 0; trace.push_back(hi + " = new node #" + std::to_string(mh[i])); break; }
+        case 1: case 2: {   // push front
+            P n = tlx::make_counting<Node>();
+            trace.push_back("push_front(" + hi + ", #" + std::to_string(n->id) + ")");
+            n->next = h[i]; mnext[n->id] = mh[i];
+            h[i] = n; mh[i] = n->id;
+            break;
+        }
+        case 3: case 4: if (!mh[i]) return; trace.push_back(hi + " = " + hi + "->next"); h[i] = h[i]->next; mh[i] = mnext.at(mh[i]); verif::count("list_pop_front_by_copy"); break;
+        case 5: {
+            if (!mh[i]) return;
+            trace.push_back(hi + " = std::move(" + hi + "->next)");
+            int n = mnext.at(mh[i]);
+            // if the node survives (other owners), its next is moved-from: empty
+            mnext[mh[i]] = 0;
+            h[i] = std::move(h[i]->next); mh[i] = n;
+            verif::count("list_pop_front_by_move");
+            break;
+        }
+        case 6: if (!mh[i]) return; trace.push_back(hj + " = " + hi + "->next"); h[j] = h[i]->next; mh[j] = mnext.at(mh[i]); break;
+        case 7: {
+            if (!mh[i] || (mh[j] && reaches(mh[j], mh[i]))) return;    // would close a cycle
+            trace.push_back(hi + "->next = " + hj);
+            h[i]->next = h[j]; mnext[mh[i]] = mh[j];
+            break;
+        }
+        case 8: if (!mh[i]) return; trace.push_back(hi + "->next.reset()"); h[i]->next.reset(); mnext[mh[i]] = 0; break;
+        case 9: {   // unlink the second node
+            if (!mh[i] || !mnext.at(mh[i])) return;
+            int second = mnext.at(mh[i]);
+            if (rng.coin()) { trace.push_back(hi + "->next = " + hi + "->next->next"); h[i]->next = h[i]->next->next; mnext[mh[i]] = mnext.at(second); }
+            else { trace.push_back(hi + "->next = std::move(" + hi + "->next->next)"); int third = mnext.at(second); mnext[second] = 0; h[i]->next = std::move(h[i]->next->next); mnext[mh[i]] = third; }
+            verif::count("list_unlink");
+            break;
+        }
+        case 10: trace.push_back(hi + ".reset()"); h[i].reset(); mh[i] = 0; break;
+        default: trace.push_back(hi + " = " + hj); h[i] = h[j]; mh[i] = mh[j]; break;
+        }
+        check(trace.back().c_str());
+    }
+    void run() {
+        verif::live_trace() = &trace;
+        try {
+            check("construct");
+            size_t nops = rng.pick(std::vector<size_t>{ 20, 80, 250 });
+            for (size_t k = 0; k < nops; ++k) op();
+            for (int i = 0; i < NH; ++i) { h[i].reset(); mh[i] = 0; }
+            check("final reset");
+        }
+        catch (Stop&) { for (auto& x : h) x.reset(); }
+        if (Registry::get().count() && !verif::case_failed()) verif::fail("C12:list:leak", std::to_string(Registry::get().count()) + " node(s) alive after all handles are gone");
+        Registry::get().live.clear(); Registry::get().errors = 0;
+        verif::cover("seq:list");
+        verif::count("list_histories");
+        verif::live_trace() = nullptr;
+    }
+};
+
+/******************************************************************************/
 // concurrent histories (dsched shims: the reference counter's atomic is a scheduling point)
 
 static bool g_serial = true;
@@ -309,6 +438,7 @@ static void run_case(Rng& rng, uint64_t) {
             case 2: { SeqDriver<CountingDeleter, false> d(rng, "counting-deleter"); d.run(); break; }
             default: { SeqDriver<tlx::CountingPtrNoOperationDeleter, true> d(rng, "no-delete"); d.run(); break; }
             }
+            if (!verif::case_failed()) { ListDriver l(rng); l.run(); }
             if (verif::case_failed()) break;
         }
         verif::count("operations", g_ops - o0);
